@@ -8,7 +8,7 @@ SHARDS = 10
 def suite_histories(suite, tier, seed):
     quick = tier == 'quick'
     if suite == 'base':
-        hs = fsgen.scripted()
+        hs = fsgen.scripted(big=('quick' if quick else 'full'))
         hs += fsgen.random_histories(seed, 24 if quick else 2500, 50 if quick else 80)
         return hs, dict(crash=0, remount=True)
     if suite == 'crash':
